@@ -2443,8 +2443,10 @@ impl CanonicalizeContext {
 					return mrow;		// already in a script position
 				}
 				if name(&parent) == "mrow" {
+					// the parent is in the middle of cleaning its children (this mrow is one of them), so it can't be restructured from here;
+					// mark the mrow so that the parent attaches it as a script if the parent is cleaned again
 					mrow.set_attribute_value("data-pseudo-script", "true");
-					return handle_pseudo_scripts(parent);
+					return mrow;
 				} else {
 					return mrow;	// FIX: what should happen?
 				}
